@@ -136,6 +136,9 @@ var GsubSimple = []Simple{
 	{"GSUB1.2 A->M (base becomes mark)", 1, func() []gtab.Subtable {
 		return []gtab.Subtable{&gtab.Gsub1_2{Cov: cov(GA), SubstituteGlyphIDs: []glyph.ID{GM}}}
 	}},
+	{"GSUB3 A->[YXY] B->[A] (alternates not in glyph order, one repeated)", 3, func() []gtab.Subtable {
+		return []gtab.Subtable{&gtab.Gsub3_1{Cov: cov(GA, GB), Alternates: [][]glyph.ID{{GY, GX, GY}, {GA}}}}
+	}},
 }
 
 // GposSimple is the menu of simple GPOS lookups.
